@@ -120,18 +120,52 @@ Qed.
 Lemma ones_all n : Forall (eq 1) (ones n).
 Proof. unfold ones. induction n; cbn [repeat]; constructor; auto. Qed.
 
+Lemma valid0_valid s dims : Forall2 axis_valid0 s dims -> s <> [] -> out_elems s <> 0 -> axes_valid s dims.
+Proof.
+  intros V Hne E. pose proof (out_elems_counts s Hne E) as Hc. clear -V Hc.
+  induction V as [|a d s dims H _ IH]; [constructor|]. inversion Hc as [|? ? Hca Hcs]; subst.
+  constructor; [|apply IH; assumption].
+  destruct H as (A1 & A2 & [A3|A3]); [lia|]. repeat split; assumption.
+Qed.
+
+Lemma slice_valid_u64 : forall start count dims, length start = length dims -> length count = length dims ->
+  Forall2 (fun sc d => fst sc + snd sc <= d) (combine start count) dims -> Forall u64 dims ->
+  Forall u64 start /\ Forall u64 count.
+Proof.
+  induction start as [|s0 s IH]; intros [|c0 c] [|d0 d] L1 L2 V U; cbn [length combine] in *; try discriminate;
+    [split; constructor|].
+  inversion V; inversion U; subst. cbn [fst snd] in *. destruct (IH c d) as [A B]; try lia; try assumption.
+  unfold u64 in *. split; constructor; try assumption; lia.
+Qed.
+
+Lemma ones_u64 n : Forall u64 (ones n).
+Proof. unfold ones. induction n; cbn [repeat]; constructor; [unfold u64, u64max; lia|assumption]. Qed.
+
+(* a request inside the dataset with at most MaxHyperslabElements elements is read *)
 Theorem read_slice_ok lay full dims start count :
   Forall u64 dims -> layout_ok lay full dims -> dims <> [] ->
+  prodN count <= max_hyperslab_elements ->
   slice_valid start count dims ->
   read_slice lay full dims start count = Some (select full dims (slice_axes start count)).
 Proof.
-  intros Ud L Hne SV. unfold read_slice.
-  rewrite (proj2 (slice_validate_ok start count dims Ud) SV). f_equal.
+  intros Ud L Hne Hlim SV. unfold read_slice.
+  rewrite (proj2 (slice_validate_ok start count dims Ud) SV).
   destruct SV as (L1 & L2 & V).
-  apply dispatch_correct0; try assumption.
-  - unfold slice_axes. apply slice_axes_valid0; try assumption; rewrite ?ones_length; try assumption; try apply ones_all.
-  - unfold slice_axes. destruct dims as [|d ds]; [congruence|]. cbn [length] in *.
-    destruct start, count; discriminate.
+  assert (V0 : Forall2 axis_valid0 (slice_axes start count) dims).
+  { unfold slice_axes. apply slice_axes_valid0; try assumption; rewrite ?ones_length; try assumption; try apply ones_all. }
+  assert (Sne : slice_axes start count <> []).
+  { unfold slice_axes. destruct dims as [|d ds]; [congruence|]. cbn [length] in *. destruct start, count; discriminate. }
+  assert (D : dispatch lay full dims (slice_axes start count) = select full dims (slice_axes start count))
+    by (apply dispatch_correct0; assumption).
+  cbv zeta. destruct (N.eqb_spec (out_elems (slice_axes start count)) 0) as [E|E]; [now rewrite D|].
+  pose proof (valid0_valid _ _ V0 Sne E) as AV.
+  destruct (slice_valid_u64 start count dims L1 L2 V Ud) as [U1 U2].
+  rewrite validate_complete; [now rewrite D| | assumption | assumption | exact Hlim |].
+  - unfold u64_sel. cbn [h_start h_count stride_of block_of h_stride h_block]. auto using ones_u64.
+  - split.
+    + unfold lens_ok. cbn [h_start h_count stride_of block_of h_stride h_block]. rewrite !ones_length. auto.
+    + unfold axes_of. cbn [h_start h_count stride_of block_of h_stride h_block].
+      unfold slice_axes in AV. rewrite L1 in AV. exact AV.
 Qed.
 
 Theorem read_slice_rejects lay full dims start count :
